@@ -21,8 +21,18 @@ instance : Inhabited CronDS := ⟨{}⟩
 def parseLists (s : String) : List (List Int) :=
   if s = "-" ∨ s = "none" then [] else (s.splitOn "|").map intList
 
+/-- insertion into a list ordered by (time, key) -/
+def insFired (x : String × Int) : List (String × Int) → List (String × Int)
+  | [] => [x]
+  | y :: rest =>
+    if x.2 < y.2 || (x.2 == y.2 && x.1 < y.1) then x :: y :: rest else y :: insFired x rest
+
+/-- The requests of one tick, in canonical order (time, then key).  The order in which DIFFERENT
+keys that are due in the same tick are served is the heap's tie order: unspecified by the property
+(per key the times are strictly increasing either way, `fired_strictly_increasing`) and proved
+irrelevant (`work_perKey`); the exact tie order of the heap port is checked by the `heap` engine. -/
 def firedStr (l : List (String × Int)) : String :=
-  if l.isEmpty then "-" else " ".intercalate (l.map fun (k, t) => s!"{k}@{t}")
+  if l.isEmpty then "-" else " ".intercalate ((l.foldl (fun acc x => insFired x acc) []).map fun (k, t) => s!"{k}@{t}")
 
 def cronStep (s : CronDS) (t : List String) : CronDS × String :=
   match t with
